@@ -138,6 +138,13 @@ func (L *Loader) verifyFuncAuto(fn *ssa.Function, spec *FuncSpec, disabled map[s
 		if len(spec.Requires) > 0 {
 			e.cover("requires", "true", spec.File)
 		}
+		if spec.Decreases != nil {
+			if v, err := env.eval(spec.Decreases.E); err == nil {
+				e.variant0 = e.toBV64(v)
+			} else {
+				e.errs = append(e.errs, fmt.Sprintf("%s: %v", spec.Decreases.Line, err))
+			}
+		}
 	}
 	// package invariants: the ensures clauses of the package initialiser's contract, provided
 	// they only mention package-level variables that nothing but init ever writes
